@@ -161,8 +161,14 @@ fn main() {
             let mut r = Sha256::new();
             let lines: Vec<String> = args.get(4).map(|f| std::fs::read_to_string(f).expect("rare-event file").lines().map(str::to_string).collect()).unwrap_or_default();
             for line in &lines {
-                let f: Vec<&str> = line.split_whitespace().collect();
+                let f: Vec<&str> = line.split(' ').collect();
                 if f.len() < 3 || f[1].parse::<u32>().ok() != Some(p.id) {
+                    continue;
+                }
+                if f[0] == "V" {
+                    let mode = refmodel::MODES[f[2].parse::<usize>().expect("mode") % 4];
+                    let (vpk, vm, vctx, vsig) = (hex::decode(f[3]).expect("pk"), hex::decode(f[4]).expect("msg"), hex::decode(f[5]).expect("ctx"), hex::decode(f[6]).expect("sig"));
+                    r.update([u8::from(refmodel::verify(&p, &vpk, &vm, &vsig, &vctx, mode).accepted())]);
                     continue;
                 }
                 let xi = hex::decode(f[2]).expect("xi");
@@ -325,6 +331,30 @@ fn main() {
             .collect();
         println!("{}", serde_json::to_string_pretty(&out).expect("json"));
         eprintln!("searched {n} reference signatures for set {} in {:.0}s", p.id, t0.elapsed().as_secs_f64());
+        return;
+    }
+    if cmd == "featvectors" {
+        // vcheck featvectors <seed>: crafted verification vectors for the feature-matrix probe, one line each:
+        //   V <set> <mode 0..3> <pk> <msg> <ctx> <sig>
+        // forged signatures under a t1 = 0 key (valid), and malformed hint encodings of them that leave the SET of
+        // hinted positions unchanged (so a decoder that tolerates the malformation makes them verify)
+        use fips204_verif::gen::sigs::{self, ForgeSpec, HKind, SigMut, ZKind};
+        use fips204_verif::gen::{BytesSpec, Seed32};
+        let seed: u64 = args[2].parse().expect("seed");
+        for p in refmodel::ALL {
+            for b in 0..4u64 {
+                let spec = ForgeSpec { rho: Seed32::Uniform(seed ^ b), seed: seed.wrapping_add(b), zkind: ZKind::Uniform, plants: vec![], hkind: HKind::Weight(40 + 40 * b as u8), msg: BytesSpec { len: 5 + b as u32, constant: None, seed: b }, ctx: BytesSpec { len: b as u32 % 3, constant: None, seed: b }, mode: (b % 4) as u8 };
+                let fb = sigs::build_forge(&p, &spec);
+                let t = &fb.tuple;
+                let mut sigs_out = vec![t.sig.clone()];
+                for mu in [SigMut::HintDescend { nth: 0 }, SigMut::HintDescend { nth: 7 }, SigMut::HintDuplicateInsert { nth: 0 }, SigMut::HintDuplicateInsert { nth: 5 }, SigMut::HintDuplicateInsert { nth: 200 }, SigMut::HintLeadingZeroTwice { poly: b as u8 }, SigMut::SlackNonzero { pos: 0, val: 1 }, SigMut::SlackNonzero { pos: 9, val: 255 }] {
+                    sigs_out.push(sigs::apply_mut(&p, &t.sig, &mu));
+                }
+                for s in sigs_out {
+                    println!("V {} {} {} {} {} {}", p.id, spec.mode % 4, hex::encode(&t.pk), hex::encode(&t.m), hex::encode(&t.ctx), hex::encode(&s));
+                }
+            }
+        }
         return;
     }
     if cmd == "coldstart" {
